@@ -119,6 +119,14 @@ mod roundtrip {
                 const NAME: &'static str = $name;
                 fn build(r: &mut Rng, n: usize) -> Self {
                     let mut s = <$ty<$f>>::new();
+                    if n % 9 == 4 {
+                        // constant data (zero variance): a legitimate state
+                        let v = <$f>::from(*r.pick(&[0.1f32, 0.7, 0.001, 1.1, 3.0, 1e6]));
+                        for _ in 0..(2 + n % 11) {
+                            StatisticsOps::append(&mut s, v).unwrap();
+                        }
+                        return s;
+                    }
                     s.feed(r, n);
                     s
                 }
@@ -313,6 +321,11 @@ mod roundtrip {
         let (x, w) = (r.uniform(-1e3, 1e3), r.f64() * 10.0);
         rt!(Interval::TwoSided(x, x + w), "Interval<f64>");
         rt!(Interval::TwoSided(-0.0f64, 0.1 + 0.2), "Interval<f64>");
+        // degenerate (valid) intervals, e.g. the mean interval of a constant sample
+        rt!(Interval::TwoSided(x, x), "Interval<f64>");
+        rt!(Interval::TwoSided(a, a), "Interval<i64>");
+        rt!(Interval::TwoSided(format!("s{}", a), format!("s{}", a)), "Interval<String>");
+        l.count("degenerate intervals round-tripped");
         rt!(Interval::UpperOneSided(x), "Interval<f64>");
         rt!(Interval::LowerOneSided(x as f32), "Interval<f32>");
         rt!(Interval::TwoSided(format!("a{}", a), format!("b{}", b)), "Interval<String>");
